@@ -199,11 +199,26 @@ fn rand_value_src(r: &mut Rng, depth: u32) -> String {
 pub fn record(seed: u64, n: usize, cli: &str) -> Vec<J> {
     let mut r = Rng::new(seed);
     let _ = (vgen::fin(0), GenCfg::default());
-    let items: Vec<(usize, String, bool)> = (0..n).map(|i| (i, rand_value_src(&mut r, 0), false)).collect();
+    let mut items: Vec<(usize, String, bool)> = (0..n).map(|i| (i, rand_value_src(&mut r, 0), false)).collect();
+    // directed: text that looks like a comment inside strings and keys (JSON has no comments; every character is data) ...
+    for t in ["a /* b */ c", "/*", "*/", " // x", "http://x //y", "a\n// b\nc", "/* never closed", "# x", "<!-- x -->", "\t//", "*/ /*"] {
+        items.push((items.len(), mv::str_src(t), false));
+        items.push((items.len(), format!("{{[{}]: 1, k: {}}}", mv::str_src(t), mv::str_src(t)), false));
+    }
+    items.push((items.len(), "[\"/*\", \"k\", \"*/\", {\"/* a\": 1, \"b */\": 2}, \" //\", 3]".to_string(), false));
+    // ... and long strings of 2-, 3- and 4-byte characters at every byte alignment: a reader that decodes the piped
+    // document piecewise splits a character wherever a piece ends
+    let long_from = items.len();
+    for (ch, count) in [('\u{e9}', 9000usize), ('\u{20ac}', 6000), ('\u{1f600}', 4500)] {
+        for k in 0..ch.len_utf8() {
+            items.push((items.len(), mv::str_src(&format!("{}{}", "a".repeat(k), ch.to_string().repeat(count))), false));
+        }
+    }
     let mut out = vec![];
     let mut bad: std::collections::HashMap<usize, Vec<String>> = std::collections::HashMap::new();
     std::thread::scope(|sc| {
-        let hs: Vec<_> = items.chunks(25).map(|part| sc.spawn(move || batch_values(cli, part))).collect();
+        let mut hs: Vec<_> = items[..long_from].chunks(25).map(|part| sc.spawn(move || batch_values(cli, part))).collect();
+        hs.extend(items[long_from..].chunks(1).map(|part| sc.spawn(move || batch_values(cli, part))));
         for h in hs { for (i, p) in h.join().unwrap() { bad.insert(i, p); } }
     });
     for (i, src, _) in &items {
